@@ -46,7 +46,7 @@ CHECKS = {
          "No estimate is ever predicted (time-seeded sketch); search runs with the sketch seed pinned through the hook.", "model-based stateful PBT with estimator-verdict oracle + lower-bound oracle"),
  "C12": ("E1", "exploration", "Every put-like call of every kind is judged by set arithmetic on the retained set (resident + ghosts) before/after, plus structural laws of PutResult (Eq/Clone/Copy/Debug) over all pairs of small integer payloads and of float payloads (NaN, -0.0; same-object comparison), clone_from for every pair; medium-scale runs.",
          "ARC evicts silently by design: one resident victim (least recent of recent/frequent) may vanish per put.", "stateful PBT, set-arithmetic oracle on state views; generated-pair oracle for PutResult laws"),
- "C14": ("E1 states x generated / exhaustive interleavings", "exploration", "Every iterator family of RawLRU and of each list of TwoQueueCache/AdaptiveCache is walked with generated next/next_back interleavings (all of them for short lists), clone points and writes; a two-cursor model over the raw-walk list predicts every item, size_hint, len, count and the state afterwards; the rest of every iterator is then consumed through one of 22 standard paths (last, nth, nth_back, fold, rfold, rev, skip, step_by, take, for_each, find, rfind, position, any, all, max_by_key, ...) (incl. skip counts near usize::MAX) and compared with the same path on a Vec iterator of the expected items; a panic while consuming is a violation.",
+ "C14": ("E1 states x generated / exhaustive interleavings", "exploration", "Every iterator family of RawLRU and of each list of TwoQueueCache/AdaptiveCache is walked with generated next/next_back interleavings (all of them for short lists), clone points and writes; a two-cursor model over the raw-walk list predicts every item, size_hint, len, count and the state afterwards; the rest of every iterator is then consumed through one of 22 standard paths (last, nth, nth_back, fold, rfold, rev, skip, step_by, take, for_each, find, rfind, position, any, all, max_by_key, ...) (incl. skip counts near usize::MAX) and compared with the same path on a Vec iterator of the expected items; a panic while consuming is a violation. Caches built by the 14 conversions (From / FromIterator, repeated keys included) are walked too: every shared and mutable family yields exactly len() entries, each key once, the *_lru variants are exact reverses, keys/values are projections, fresh hints are exact and an alternating walk from both ends meets.",
          "Expected walk computed from the raw-link view of the same list.", "stateful PBT + exhaustive interleaving enumeration, two-cursor model oracle"),
  "C15": ("E1 on callback-carrying RawLRU", "exploration", "Both callback constructors, full API; per op the recorded callback invocations must equal the entries that left the list (least recent first, current values) and be empty otherwise.",
          "on_evict<K,V> is unbounded-generic: the recorder uses a type-name guarded cast.", "stateful PBT, departure-log oracle from state-view difference"),
@@ -58,12 +58,12 @@ CHECKS = {
          "Instrumented keys/values make shared nodes surface as dead-object accesses.", "stateful PBT, snapshot equality + lock-step differential + independence oracle"),
  "C17": ("multi-instance differential on E1 histories", "exploration", "The same generated history (incl. clone, purge, resize) runs on six instances whose inner lists use different BuildHashers (FNV seeds, identity, constant-zero, two RandomStates, mixed per list): every result, state view, callback log and release order of departing entries must be identical. Conversions: the same ordered source converted twice (differently seeded default hashers) must give the same cache and the same behaviour afterwards.",
          "W-TinyLFU instances share the key hasher and a pinned sketch seed so that the estimator verdicts are the same.", "differential PBT across BuildHashers (pairwise trace equality)"),
- "C20": ("E7 cost-tracker sequences", "exploration", "Generated SampledLFU sequences over hashed keys and signed costs against an exact map+sum model: room_left after every step, update/remove results, fill_sample shape and membership; limits and costs up to the ends of the i64 range with an exact i128 oracle; String keys through &String / &str incl. the empty key.",
+ "C20": ("E7 cost-tracker sequences", "exploration", "Generated SampledLFU sequences over hashed keys and signed costs against an exact map+sum model: room_left after every step, update/remove results, fill_sample shape and membership; limits and costs up to the ends of the i64 range with an exact i128 oracle; String keys through &String / &str incl. the empty key; one case in sixteen contains bursts of up to 4 000 distinct keys (table sizes beyond 1024 slots) that are removed or cleared again.",
          "Where the exact value does not fit into an i64 nothing is demanded.", "PBT over component op sequences, exact map + sum model"),
  "C18": ("E4 fault enumeration in a supervised child process", "fault_enumeration", "For each generated history over all cache kinds, EVERY call into user code (Hash, Eq, Clone, Drop of keys and values, BuildHasher, Hasher::finish, KeyHasher, eviction callback) is a crash point: a dry run counts them, then the history is re-run once per index with a panic injected exactly there, the remaining operations run, the cache is inspected and dropped; the same for caches built by From / collect() conversions (the conversion's own user-code calls included). Oracle: no double drop, no operation on a dead/freed/uninitialised object, everything reachable is live, no write-after-free, and the process survives (a supervising parent turns a dead child into the violation, with the journaled case as replay).",
          "History length bounded (12 quick / 30 thorough); a shrinking resize after the injected panic is excluded by construction (it can spin forever: a hang, not a memory hazard) and counted; double panics are not generated.", "fault injection at every enumerated user-code call site of PBT-generated histories"),
- "C19": ("E5 program generator + rustc verdict", "exploration", "Generated client programs: every public reference- or iterator-returning method (120, checked against a source scan) x misuse templates (hold across mutation, across a reordering call, drop/outlive the cache, double &mut, copy/clone of a mutable borrow, iterator items, cross-thread) each next to a positive control; cargo check's diagnostics are the oracle; no safe constructor for the raw-pointer index key KeyRef. The Send/Sync table of all cache and iterator types over the complete 4x4 lattice of K and V, and of every hasher / key-hasher / callback parameter, (plus TinyLFU / SampledLFU parameters) is computed by a generated program and judged by the implications soundness needs. At run time: six threads call every &self method of a shared prefilled cache of each kind; every answer must be the single-threaded one (a &self method that writes makes Sync unjustified).",
-         "Finite template set: cannot show that no safe program misuses the API; rustc is trusted.", "generated compile-fail probes with positive controls (compiler as oracle) + exhaustive marker table"),
+ "C19": ("E5 program generator + rustc verdict", "exploration", "Generated client programs: every public reference- or iterator-returning method (120, checked against a source scan) x misuse templates (hold across mutation, across a reordering call, drop/outlive the cache, double &mut, copy/clone of a mutable borrow, iterator items, cross-thread) each next to a positive control; cargo check's diagnostics are the oracle; no safe constructor for the raw-pointer index key KeyRef. The Send/Sync table of all cache and iterator types over the complete 4x4 lattice of K and V, and of every hasher / key-hasher / callback parameter, (plus TinyLFU / SampledLFU parameters) is computed by a generated program and judged by the implications soundness needs. At run time: six threads call every &self method of a shared prefilled cache of each kind; every answer must be the single-threaded one (a &self method that writes makes Sync unjustified). And the iterator bodies: generated lists x the mutable iterator types (through 13 accessors of RawLRU / TwoQueueCache / AdaptiveCache) x generated next / next_back / nth / nth_back calls and a final std adaptor (rev, skip, step_by, take, last, fold, rfold); all references handed out are held at once and must point to pairwise different values of that list, at most len() of them.",
+         "Finite template set: cannot show that no safe program misuses the API; rustc is trusted.", "generated compile-fail probes with positive controls (compiler as oracle) + exhaustive marker table + PBT over mutable-iterator call sequences (address-distinctness oracle)"),
 }
 
 NOT_YET = {
